@@ -63,4 +63,8 @@ ValidList(bs) ==
     /\ Count(bs, LAMBDA b : b.kind = "picture" /\ b.ptype = 1) <= 1
     /\ Count(bs, LAMBDA b : b.kind = "picture" /\ b.ptype = 2) <= 1
     /\ \A k \in 1..Len(bs) : bs[k].kind = "picture" => bs[k].ptype <= 20
+    \* fixed-width fields of a cue sheet: at most 128 catalog digits, an ISRC of exactly 12 bytes (zeros when absent) - a value of another
+    \* width is no block value (it must be refused when the block is built or written, never cut or padded behind the caller's back)
+    /\ \A k \in 1..Len(bs) : bs[k].kind = "cuesheet" =>
+          Len(bs[k].catalog) <= 128 /\ \A i \in 1..Len(bs[k].tracks) : Len(bs[k].tracks[i].isrc) = 12
 =======================================================================
